@@ -2,7 +2,8 @@
    with std::path::Path::components / join as they behave on Unix, and of the check that get_all_commands applies to every
    command name (one Normal component equal to the whole name).  No proofs here. *)
 From Coq Require Import List NArith Bool.
-From MR Require Import Lib.Bytes.
+From Coq Require Import String.
+From MR Require Import Lib.Bytes Lib.Val.
 Import ListNotations.
 
 Definition dot : byte := 46%N.
@@ -28,9 +29,10 @@ Definition components (s : str) : list comp :=
   end.
 
 (* the check in get_all_commands *)
+Definition result_file_name : str := bs "result.json.zst"%string.      (* the slot's own file, beside the command directories *)
 Definition name_accepted (c : str) : bool :=
   match components c with
-  | [Normal x] => str_eqb x c
+  | [Normal x] => str_eqb x c && negb (str_eqb c result_file_name)
   | _ => false
   end.
 (* what it amounts to *)
